@@ -53,6 +53,19 @@ def run(ctx, model_ok):
     for key in rng.sample(free, min(len(free), 25 if ctx.quick() else 120)):
         metas.append((key, dc.in_domain_first(R, key, rng), dc.in_domain_last(R, key, rng, [0, 1, 2, 3]), 7, [], []))
         kinds.append('host-free-row')
+    # every row that shows flag / enum NAMES from the tool's own tables, with every single declared bit and all bits: the
+    # host has modules with like-named tables (socket.MsgFlag, stat, os.O_*) numbered differently
+    free0 = [r[1] for r in R.rows if 'host:' not in R.toks_text(r[1]) and 'CEqHost' not in R.toks_text(r[1])
+             and r[1] in R.code_of and r[1] != 'VFS_LOOKUP']          # with a zero error word no errno name is shown
+    for key in free0:
+        words = R.flag_words(key)
+        for e, i in words:
+            vals = [v for _, v in R.enums[e][0] if v > 0]
+            for w in vals + [sum(set(vals)) & (2 ** 64 - 1)]:
+                first = dc.in_domain_first(R, key, rng)
+                first[i] = w
+                metas.append((key, first, [0, 1, 2, 3], 7, [], []))
+                kinds.append('host-free-row')
     real = dc.run_windows(R, metas)
     darw = dc.run_windows(R, metas, host=D)
     ctx.evaluations = 2 * len(metas)
